@@ -367,8 +367,15 @@ func (g *gen) randomOp(locky bool) {
 		if g.rng.Intn(5) == 0 && g.height > 2 {
 			g.height -= 2
 		}
-		g.add("setsynced h=%d hash=%d", g.height, 1+g.rng.Intn(1000))
-		g.hs[g.height] = true
+		if g.rng.Intn(6) == 0 {
+			g.add("setbirthday")
+		}
+		hh := g.height
+		if g.rng.Intn(6) == 0 {
+			hh += 2 + g.rng.Intn(3) // a gap: refused once the birthday block is known
+		}
+		g.add("setsynced h=%d hash=%d", hh, 1+g.rng.Intn(1000))
+		g.hs[hh] = true
 	case r < 68:
 		g.add("q.address sc=%d key=%s", sc, g.key(sc))
 	case r < 72:
@@ -614,6 +621,45 @@ func scenarios(rng *rand.Rand, flags string) []core.Case {
 			g.add("chpass old=0 new=3 priv=1")
 			g.add("unlock p=3")
 			g.add("unlock p=0")
+		})
+	}
+	// C08: rename of a CACHED imported-xpub account, committed (the cache must follow for every account row type)
+	mk("scn-c08-rename-xpub", func(g *gen) {
+		g.create(5, 1, []int{1})
+		g.add("unlock p=1")
+		g.add("newacct sc=1 name=a1 wo=0 expect=1")
+		g.add("newacct sc=1 name=xp wo=1 expect=2")
+		g.accts["1/1"], g.accts["1/2"] = true, true
+		g.names["1/a1"], g.names["1/xp"], g.names["1/xp2"], g.names["1/a1b"] = true, true, true, true
+		g.add("q.props sc=1 acct=2")
+		g.add("q.props sc=1 acct=1")
+		g.add("rename sc=1 acct=2 name=xp2")
+		g.add("rename sc=1 acct=1 name=a1b")
+		g.add("q.props sc=1 acct=2")
+		g.cmpq()
+		g.add("reopen pub=5")
+		g.cmpq()
+	})
+	// C08: a SetSyncedTo that is refused (birthday block known, predecessor hash missing) must not move SyncedTo()
+	for _, how := range []string{"rollback", "commit", "none"} {
+		how := how
+		mk("scn-c08-synced-refused", func(g *gen) {
+			g.create(5, 1, []int{1})
+			g.add("setsynced h=1 hash=11")
+			g.add("setbirthday")
+			g.hs[1], g.hs[2], g.hs[5] = true, true, true
+			if how != "none" {
+				g.begin()
+			}
+			g.add("setsynced h=5 hash=55")
+			g.add("q.synced")
+			if how != "none" {
+				g.end(how)
+			}
+			g.cmpq()
+			g.add("setsynced h=2 hash=22")
+			g.add("q.synced")
+			g.cmpq()
 		})
 	}
 	// C08: every eager mutator inside a rolled-back / failed-commit / committed bracket
